@@ -230,6 +230,27 @@ theorem C10.dispatch_fixed_equiv (c : BinCfg) (calls : List MCall) (v : Val)
 example : BinCfg.priority ⟨false, false, true, some .notImpl, some (.val 7)⟩ = false ∧
     cpyBinOp ⟨false, false, true, some .notImpl, some (.val 7)⟩ = ([.l, .r], some 7) := by decide
 
+
+/-- C10 (operator dispatch on class hierarchies), unrestricted: wherever in the MROs the special methods are
+    defined (own body, parent, grandparent, mixin, alias of an inherited function), the dispatch that decides
+    "provides a different reflected method" by MRO lookup + identity computes every value CPython computes,
+    with the same calls in the same order -/
+theorem C10.dispatch_hier_equiv (h : HierCfg) (calls : List MCall) (v : Val)
+    (hc : cpyHier h = (calls, some v)) : dispatchHier h = (calls, some v) :=
+  C10.dispatch_fixed_equiv h.toBin calls v hc
+
+/-- deciding the priority by "the reflected method is written in the right operand's own class body" is NOT
+    CPython's rule: `A <- B (defines __rsub__) <- C`, `A() - C()` (seeded/C10-reflected-binop-inherited) -/
+theorem C10.dispatch_own_dict_fails_at :
+    ¬ ∀ h : HierCfg, ∀ calls v, cpyHier h = (calls, some v) → dispatchBinOpFixed h.toBinOwnDict = (calls, some v) := by
+  intro hall
+  have := hall ⟨false, true, 1, 2, [⟨[(1, 10)]⟩], [⟨[]⟩, ⟨[(2, 20)]⟩, ⟨[(1, 10)]⟩], [(10, .val 1), (20, .val 2)]⟩ [.r] 2 (by decide)
+  exact absurd this (by decide)
+
+/-- non-vacuity: the mixin shape `class C(Mixin, A)` with `Mixin.__rsub__` -/
+example : cpyHier ⟨false, true, 1, 2, [⟨[(1, 10)]⟩], [⟨[]⟩, ⟨[(2, 20)]⟩, ⟨[(1, 10)]⟩], [(10, .val 1), (20, .val 2)]⟩ = ([.r], some 2) := by
+  decide
+
 /- rich comparisons, unrestricted statement
        ∀ c, c.wf → ∀ calls b, cpyCmp c = (calls, some b) → dispatchCmp c = (calls, some b) ∨ (dispatchCmp c).2 = none
    FALSE of the current code (`class B(A)`: `A() < B()` calls `B.__gt__` first in CPython). -/
